@@ -156,6 +156,8 @@ func (e *env) project(s *bug.Snapshot) Snap {
 				m[k] = 0
 			case v == "own":
 				m[k] = -1
+			case v == "":
+				m[k] = -2 // there, with nothing in it
 			default:
 				m[k] = num(v, "v")
 			}
@@ -262,6 +264,8 @@ func (e *env) apply(b bug.Interface, c Call, unix int64) error {
 		}
 	case "meta":
 		_, err = bug.SetMetadata(b, a, unix, target(s, c.T), map[string]string{c.Key: fmt.Sprintf("v%d", i)})
+	case "metaempty":
+		_, err = bug.SetMetadata(b, a, unix, target(s, c.T), map[string]string{c.Key: ""})
 	case "noop":
 		op := dag.NewNoOpOp[*bug.Snapshot](bug.NoOpOp, a, unix)
 		b.Append(op)
@@ -301,6 +305,8 @@ func (e *env) applyCache(b *cache.BugCache, c Call, unix int64) error {
 		}
 	case "meta":
 		_, err = b.SetMetadataRaw(a, unix, target(s, c.T), map[string]string{c.Key: fmt.Sprintf("v%d", i)})
+	case "metaempty":
+		_, err = b.SetMetadataRaw(a, unix, target(s, c.T), map[string]string{c.Key: ""})
 	}
 	return err
 }
